@@ -5,6 +5,8 @@ import GV.Proofs.CborBytes
 -/
 namespace GV.Cbor
 
+def sumLens (cs : List (Nat × Nat)) : Nat := (cs.map (·.2)).sum
+
 /-- spans are laid out one after the other from `start` -/
 def Contig : Nat → List (Nat × Nat) → Prop
   | _, [] => True
@@ -139,5 +141,222 @@ theorem childSpans_props {b : Bytes} {h : Nat} {cs : List (Nat × Nat)} {ind : B
             exact ⟨major, ai, arg, rfl, hm, by simp [hai], fun _ => ⟨by omega, h1⟩, h2, h3, h4,
               by omega⟩
     · simp only [hm, if_false] at hc; cases hc
+
+end GV.Cbor
+
+/-! ### locality: the children of an item do not depend on what follows the item -/
+namespace GV.Cbor
+
+theorem spansDef_append (r : Bytes) : ∀ (n : Nat) (rest : Bytes) (pos : Nat) (cs : List (Nat × Nat)),
+    spansDef n rest pos = some cs → spansDef n (rest ++ r) pos = some cs := by
+  intro n
+  induction n with
+  | zero => intro rest pos cs h; simpa [spansDef] using h
+  | succ n ih =>
+    intro rest pos cs h
+    simp only [spansDef] at h ⊢
+    cases hw : wfItem rest with
+    | needMore => rw [hw] at h; cases h
+    | bad => rw [hw] at h; cases h
+    | ok l =>
+      rw [hw] at h; simp only at h
+      have hl := wf_consumes_le hw
+      rw [wf_append hw r]; simp only
+      rw [List.drop_append_of_le_length hl.2]
+      cases hr : spansDef n (rest.drop l) (pos + l) with
+      | none => rw [hr] at h; cases h
+      | some cs' =>
+        rw [hr] at h
+        rw [ih _ _ _ hr]
+        exact h
+
+theorem spansIndef_append (r : Bytes) : ∀ (f : Nat) (rest : Bytes) (pos : Nat) (cs : List (Nat × Nat))
+    (k : Nat), spansIndef f rest pos = some cs → spansIndef (f + k) (rest ++ r) pos = some cs := by
+  intro f
+  induction f with
+  | zero => intro rest pos cs k h; simp [spansIndef] at h
+  | succ f ih =>
+    intro rest pos cs k h
+    cases rest with
+    | nil => simp [spansIndef] at h
+    | cons x tl =>
+      have e : f + 1 + k = (f + k) + 1 := by omega
+      rw [e]
+      simp only [spansIndef, List.cons_append] at h ⊢
+      by_cases hx : x = 0xff
+      · simp only [hx, if_true] at h ⊢; exact h
+      · simp only [hx, if_false] at h ⊢
+        cases hw : wfItem (x :: tl) with
+        | needMore => rw [hw] at h; cases h
+        | bad => rw [hw] at h; cases h
+        | ok l =>
+          rw [hw] at h; simp only at h
+          have hl := wf_consumes_le hw
+          have := wf_append hw r
+          simp only [List.cons_append] at this
+          rw [this]; simp only
+          have hd : (x :: (tl ++ r)).drop l = (x :: tl).drop l ++ r := by
+            rw [← List.cons_append, List.drop_append_of_le_length hl.2]
+          rw [hd]
+          cases hr : spansIndef f ((x :: tl).drop l) (pos + l) with
+          | none => rw [hr] at h; cases h
+          | some cs' =>
+            rw [hr] at h
+            rw [ih _ _ _ k hr]
+            exact h
+
+/-- `childSpans` looks only at the item itself. -/
+theorem childSpans_append {x : Bytes} {res : Nat × List (Nat × Nat) × Bool} (t : Bytes)
+    (h : childSpans x = some res) : childSpans (x ++ t) = some res := by
+  unfold childSpans at h ⊢
+  cases hrh : readHead x with
+  | short => rw [hrh] at h; cases h
+  | mk major ai arg hlen =>
+    rw [hrh] at h
+    rw [readHead_append hrh]
+    simp only at h ⊢
+    have hb := readHead_bounds hrh
+    rw [List.drop_append_of_le_length hb.2]
+    split at h
+    · rename_i hm
+      simp only [hm, if_true]
+      split at h
+      · rename_i hai
+        simp only [hai, if_true]
+        cases hs : spansIndef x.length (x.drop hlen) hlen with
+        | none => rw [hs] at h; cases h
+        | some cs =>
+          rw [hs] at h
+          have := spansIndef_append t _ _ _ _ t.length hs
+          rw [List.length_append, this]
+          exact h
+      · rename_i hai
+        simp only [hai, if_false]
+        split at h
+        · cases h
+        · rename_i h28
+          simp only [h28, if_false]
+          cases hs : spansDef (if major = 4 then arg else 2 * arg) (x.drop hlen) hlen with
+          | none => rw [hs] at h; cases h
+          | some cs =>
+            rw [hs] at h
+            rw [spansDef_append t _ _ _ _ hs]
+            exact h
+    · cases h
+
+theorem slice_append_left (x t : Bytes) (o l : Nat) (h : o + l ≤ x.length) :
+    slice (x ++ t) o l = slice x o l := by
+  unfold slice
+  rw [List.drop_append_of_le_length (by omega), List.take_append_of_le_length]
+  simp only [List.length_drop]; omega
+
+/-- a well-formed item never starts with the break byte -/
+theorem wfItem_break_ne_ok (tl : Bytes) (n : Nat) : wfItem ((0xff : UInt8) :: tl) ≠ .ok n := by
+  rw [wfItem_eq]
+  simp [runS, step, readHead, argLen, beNat, action, brkOk]
+
+end GV.Cbor
+
+namespace GV.Cbor
+
+/-- after the children of an indefinite container comes the break byte -/
+theorem spansIndef_end (b : Bytes) : ∀ (f pos : Nat) (cs : List (Nat × Nat)),
+    spansIndef f (b.drop pos) pos = some cs → ∃ tl, b.drop (pos + sumLens cs) = (0xff : UInt8) :: tl := by
+  intro f
+  induction f with
+  | zero => intro pos cs h; simp [spansIndef] at h
+  | succ f ih =>
+    intro pos cs h
+    simp only [spansIndef] at h
+    cases hd : b.drop pos with
+    | nil => rw [hd] at h; cases h
+    | cons x tl =>
+      rw [hd] at h; simp only at h
+      by_cases hx : x = 0xff
+      · simp only [hx, if_true, Option.some.injEq] at h
+        subst h; subst hx
+        exact ⟨tl, by simpa [sumLens] using hd⟩
+      · simp only [hx, if_false] at h
+        rw [← hd] at h
+        cases hw : wfItem (b.drop pos) with
+        | needMore => rw [hw] at h; cases h
+        | bad => rw [hw] at h; cases h
+        | ok l =>
+          rw [hw] at h; simp only at h
+          rw [List.drop_drop] at h
+          cases hr : spansIndef f (b.drop (pos + l)) (pos + l) with
+          | none => rw [hr] at h; cases h
+          | some cs' =>
+            rw [hr] at h; simp only [Option.map_some, Option.some.injEq] at h
+            subst h
+            obtain ⟨tl', ht⟩ := ih (pos + l) cs' hr
+            refine ⟨tl', ?_⟩
+            have : pos + sumLens ((pos, l) :: cs') = pos + l + sumLens cs' := by
+              simp [sumLens]; omega
+            rw [this]; exact ht
+
+theorem childSpans_indef_end {b : Bytes} {h : Nat} {cs : List (Nat × Nat)}
+    (hc : childSpans b = some (h, cs, true)) : ∃ tl, b.drop (h + sumLens cs) = (0xff : UInt8) :: tl := by
+  unfold childSpans at hc
+  cases hrh : readHead b with
+  | short => rw [hrh] at hc; cases hc
+  | mk major ai arg hlen =>
+    rw [hrh] at hc; simp only at hc
+    split at hc
+    · split at hc
+      · cases hs : spansIndef b.length (b.drop hlen) hlen with
+        | none => rw [hs] at hc; cases hc
+        | some cs' =>
+          rw [hs] at hc; simp only at hc
+          split at hc
+          · cases hc
+          · simp only [Option.some.injEq, Prod.mk.injEq] at hc
+            obtain ⟨rfl, rfl, _⟩ := hc
+            exact spansIndef_end b _ _ _ hs
+      · split at hc
+        · cases hc
+        · cases hs : spansDef (if major = 4 then arg else 2 * arg) (b.drop hlen) hlen with
+          | none => rw [hs] at hc; cases hc
+          | some cs' =>
+            rw [hs] at hc
+            simp only [Option.map_some, Option.some.injEq, Prod.mk.injEq] at hc
+            obtain ⟨_, _, hf⟩ := hc
+            cases hf
+    · cases hc
+
+/-- a map has an even number of child spans (keys and values alternate) -/
+theorem childSpans_map_even {b : Bytes} {h : Nat} {cs : List (Nat × Nat)} {ind : Bool} {ai arg hl : Nat}
+    (hc : childSpans b = some (h, cs, ind)) (hrh : readHead b = .mk 5 ai arg hl) :
+    cs.length % 2 = 0 := by
+  obtain ⟨major, ai', arg', hrh', _, hind, hdef, _⟩ := childSpans_props hc
+  rw [hrh] at hrh'
+  simp only [Head.mk.injEq] at hrh'
+  obtain ⟨rfl, rfl, rfl, rfl⟩ := hrh'
+  cases ind with
+  | false =>
+    have := (hdef rfl).2
+    simp at this; omega
+  | true =>
+    have hai : ai = 31 := hind.mp rfl
+    subst hai
+    unfold childSpans at hc
+    rw [hrh] at hc
+    cases hs : spansIndef b.length (b.drop hl) hl with
+    | none => simp [hs] at hc
+    | some cs' =>
+      simp [hs] at hc
+      obtain ⟨h1, h2⟩ := hc
+      subst h2
+      omega
+
+/-- an unsigned integer head is a complete item of exactly the header's length -/
+theorem wfItem_uint {x : Bytes} {ai arg hlen : Nat} (hrh : readHead x = .mk 0 ai arg hlen)
+    (hai : ai ≤ 27) : wfItem x = .ok hlen := by
+  have hb := readHead_bounds hrh
+  rw [wfItem_eq]
+  have h2830 : ¬ (28 ≤ ai ∧ ai ≤ 30) := by omega
+  have h31 : ¬ ai = 31 := by omega
+  have hl : ¬ x.length < hlen := by omega
+  simp [runS, step, hrh, action, brkOk, actionCore, h2830, h31, hl, finish, itemDone]
 
 end GV.Cbor
